@@ -1,7 +1,7 @@
 (* C02 - the truth log is append-only; read-only, dry-run and no-op capabilities never write.
    Statements only; proofs are in Proofs/ContStoreProofs.v and Proofs/LogProofs.v. *)
-From RipV Require Import Base.Prelude Model.Frames Model.Log Model.ContStore
-  Proofs.LogProofs Proofs.ContStoreProofs.
+From RipV Require Import Base.Prelude Model.Frames Model.Log Model.ContStore Model.LogBytes
+  Proofs.LogProofs Proofs.ContStoreProofs Proofs.LogBytesProofs Gen.LogOpen.
 
 (* one micro-step of any actor running ANY program (well-formed or not) in ANY state leaves the
    log as it was or adds exactly one frame at the end *)
@@ -56,6 +56,75 @@ Theorem c02_unknown_thread_adds_nothing : forall st c t ar rest,
   s_log (exec (MTarget c :: locked_append t ar ++ rest) st) = s_log st.
 Proof. exact unknown_thread_append_silent. Qed.
 Print Assumptions c02_unknown_thread_adds_nothing.
+
+(* ---------- byte level: what is IN THE FILE after every write(2) of EventLog::append ----------
+   BufWriter rule (Model/LogBytes.v): bytes reach the file when the buffer is flushed or when one
+   write is at least as large as the capacity.  For EVERY capacity, every sequence of frames appended
+   with the single write of frame+LF, and every instant (= after each write(2)): the file is the old
+   bytes followed by whole, newline-terminated frames - a reader, a second handle or a crash never
+   meets part of a line. *)
+Theorem c02_file_is_whole_lines_at_every_step :
+  forall (cap : N) (enc : frame -> bytes) (l fs : list frame) (b : bytes),
+  (forall f, ~ In 10 (enc f)) ->
+  In b (bw_trace cap (bw_at (log_bytes enc l)) (appends_single enc fs)) ->
+  exists k, b = log_bytes enc l ++ log_bytes enc (firstn k fs)
+            /\ split_lines (log_bytes enc (firstn k fs)) = (map enc (firstn k fs), []).
+Proof. exact file_whole_lines_every_step. Qed.
+Print Assumptions c02_file_is_whole_lines_at_every_step.
+
+Theorem c02_file_after_appends : forall (cap : N) (enc : frame -> bytes) (l fs : list frame),
+  bw_final cap (bw_at (log_bytes enc l)) (appends_single enc fs) = bw_at (log_bytes enc (l ++ fs)).
+Proof. exact file_after_appends. Qed.
+Print Assumptions c02_file_after_appends.
+
+(* T1: the writer calls read off EventLog::append on this run ARE that single-write program *)
+Theorem c02_generated_append_is_single_write : forall (enc : frame -> bytes) (pieces : frame -> list bytes) (f : frame),
+  prog_of_shape enc pieces f gen_append_shape = append_single enc f.
+Proof. exact (fun enc pieces f => shape_single_prog enc pieces f gen_append_shape gen_append_shape_ok). Qed.
+Print Assumptions c02_generated_append_is_single_write.
+
+(* frame and terminator as two writes (the shape before /repo bd2ee56): every frame whose printed
+   form fills the buffer is in the file WITHOUT its newline at some instant *)
+Theorem c02_two_write_append_exposes_partial_line :
+  forall (cap : N) (enc : frame -> bytes) (l : list frame) (f : frame),
+  (forall g, ~ In 10 (enc g)) -> cap <= blen (enc f) -> enc f <> [] ->
+  exists b, In b (bw_trace cap (bw_at (log_bytes enc l)) (append_two_writes enc f))
+            /\ partial_tail b = enc f /\ partial_tail b <> [].
+Proof. exact two_writes_partial_line. Qed.
+Print Assumptions c02_two_write_append_exposes_partial_line.
+
+(* a serializer streaming into the BufWriter (serde_json::to_writer + write_all(b"\n")): every frame
+   longer than the buffer is in the file in part at some instant, however it is cut into pieces *)
+Theorem c02_streamed_append_exposes_partial_line :
+  forall (cap : N) (enc : frame -> bytes) (l : list frame) (pieces : list bytes),
+  (forall g, ~ In 10 (enc g)) -> ~ In 10 (concat pieces) -> cap < blen (concat pieces) ->
+  exists b, In b (bw_trace cap (bw_at (log_bytes enc l)) (append_streamed pieces)) /\ partial_tail b <> [].
+Proof. exact streamed_partial_line. Qed.
+Print Assumptions c02_streamed_append_exposes_partial_line.
+
+(* so `c02_file_is_whole_lines_at_every_step` is FALSE of those two shapes at std's capacity 8192 *)
+Theorem c02_file_is_whole_lines_two_writes_refuted :
+  exists b, In b (bw_trace bufwriter_capacity (bw_at (log_bytes w_enc [w_frame])) (append_two_writes w_enc w_frame))
+            /\ partial_tail b <> [].
+Proof. exact w_two_writes_refuted. Qed.
+Print Assumptions c02_file_is_whole_lines_two_writes_refuted.
+
+Theorem c02_file_is_whole_lines_streamed_refuted :
+  exists b, In b (bw_trace bufwriter_capacity (bw_at (log_bytes w_enc [w_frame])) (append_streamed w_pieces))
+            /\ partial_tail b <> [].
+Proof. exact w_streamed_refuted. Qed.
+Print Assumptions c02_file_is_whole_lines_streamed_refuted.
+
+(* non-vacuity: capacity 4, lines of 7 bytes: the single-write append passes through old, old+f1,
+   old+f1+f2 only; the two-write append passes through old+"{1}AAA" *)
+Example c02_byte_trace_demo :
+  bw_trace 4 (bw_at (log_bytes d_enc [w_frame])) (appends_single d_enc (tl d_frames)) =
+  [log_bytes d_enc [w_frame]; log_bytes d_enc (firstn 2 d_frames); log_bytes d_enc (firstn 2 d_frames);
+   log_bytes d_enc (firstn 2 d_frames); log_bytes d_enc d_frames; log_bytes d_enc d_frames]
+  /\ bw_trace 4 (bw_at (log_bytes d_enc [w_frame])) (append_two_writes d_enc (nth 1 d_frames w_frame)) =
+     [log_bytes d_enc [w_frame]; log_bytes d_enc [w_frame] ++ d_enc (nth 1 d_frames w_frame);
+      log_bytes d_enc (firstn 2 d_frames)].
+Proof. exact d_trace. Qed.
 
 (* non-vacuity: the same model does append for the non-silent invocations *)
 Example c02_demo_nontrivial :
